@@ -74,6 +74,29 @@ class VersionEval:
         if not is_node(e) or depth > 30:
             return None
         k = e["k"]
+        if k == "VerOr":
+            # disjunction of conjunctions of version guards synthesised at a control-flow join (flow.join)
+            import flow as _flow
+            unknown = False
+            for conj in e["conjs"]:
+                cv = True
+                for key, pol in conj:
+                    node = _flow.KEYNODE.get(key)
+                    if isinstance(node, tuple):
+                        v = self.ev(node[1], ver, depth + 1, binds)
+                        v = None if v is None else (bool(v) == node[2])
+                    else:
+                        v = self.ev(node, ver, depth + 1, binds)
+                        v = None if v is None else bool(v)
+                    if v is None:
+                        cv = None if cv is not False else False
+                    elif v != pol:
+                        cv = False
+                if cv is True:
+                    return True
+                if cv is None:
+                    unknown = True
+            return None if unknown else False
         if binds and k == "Ref" and e.get("id") in binds:
             return binds[e["id"]]
         if k == "Ref" and e.get("rk") == "local" and (e.get("id"), e.get("name")) in VERSION_LOCALS:
@@ -164,6 +187,8 @@ class VersionEval:
 
     def is_version_expr(self, e):
         """True if e mentions the version object at all"""
+        if is_node(e) and e["k"] == "VerOr":
+            return True
         for n in walk(e):
             if n["k"] == "Call" and n.get("cls") == NIV:
                 return True
